@@ -2,7 +2,7 @@
 (* C03 - The kernel never fails on its own: no leaked signal, internal      *)
 (*       error or livelock                                                  *)
 EXTENDS ObsBase
-Ids == 1..16
+Ids == 1..200
 VARIABLES tid, l, sco, bad
 vars == <<tid, l, sco, bad>>
 \* sco[s] = [owner, open]
